@@ -218,7 +218,7 @@ Proof. vm_compute. repeat split; auto; try discriminate. Qed.
     hold for what the code says now. A change of one of these functions that is not an equivalent rewrite breaks the
     proof obligation here. *)
 From Hoot Require Import Gen.
-From Hoot.proofs Require Import Gen_equiv.
+From Hoot.proofs Require Import Gen_equiv_ext.
 Theorem c17_code_verify_version : forall m v, gen_verify_version m v = verify_version m v.
 Proof. exact gen_verify_version_eq. Qed.
 Theorem c17_code_is_http10 : forall m, gen_is_http10 m = is_http10 m.
@@ -227,6 +227,128 @@ Theorem c17_code_is_http11 : forall m, gen_is_http11 m = is_http11 m.
 Proof. exact gen_is_http11_eq. Qed.
 Theorem c17_code_need_request_body : forall m, gen_need_request_body m = need_request_body m.
 Proof. exact gen_need_request_body_eq. Qed.
+
+(* ================================================================== strengthening (review 3) *)
+(** Proofs: proofs/C17_more.v.
+
+    LEVEL NOTE: WHAT "NOTHING EMITTED / STATE UNCHANGED" MEANS HERE.  The model's write entry points have type
+    [res (state * output)]; an [Err] carries neither a state nor output.  So in [c17_rejected] / [c17_repeatable]
+    "no byte emitted" and "no new state" hold by the type of the model, and [fwrun] / [cwrun] define a refused
+    write as "keep the flow you had".  What is a THEOREM is the statement for the operation language of Script.v
+    ([Script.step], the semantics that is compared operation by operation with the real crate: the harness keeps
+    using the same Rust object after a real error, and all its later observations are compared with the model's):
+    a refused [write_head] leaves the WHOLE script state as it was, and later readiness queries, attempts to
+    advance and further writes are answered "false" / "stay" / the same error ([c17_nothing_emitted_flow]).  That
+    the Rust object ([&mut self]) and the caller's buffer are bit-for-bit untouched after the [Err] is established
+    by that correspondence, not by a Coq proof. *)
+From Hoot Require Import Chunk Httparse Parser Script.
+From Hoot.proofs Require Import C17_more.
+
+(** RECONCILING [invalid] WITH THE ENGLISH STATEMENT.  [invalid_english]: exactly the classes the statement lists
+    ("non-numeric" = not 1*DIGIT).  [invalid_extra]: the two classes the code rejects in addition --
+    X1 a Host value that is not text (visible ASCII), X2 an all-digit Content-Length whose value is 2^64 or more.
+    The statement's last sentence ("every request outside these classes is accepted") is true of
+    [invalid_english \/ invalid_extra], not of [invalid_english] alone ([c17_ex_extra_classes]). *)
+Theorem c17_english_def : forall a wanted skip,
+  invalid_english a wanted skip =
+    (negb (version_supported (am_version a))
+     || negb (method_defined (am_version a) (am_method a))
+     || (1 <? len (hosts a))
+     || (1 <? len (cls a))
+     || existsb (fun v => negb (is_nonempty v && forallb is_digit v)) (cls a)
+     || (negb skip &&
+         (if need_request_body (am_method a)
+          then negb (body_announced a wanted)
+          else body_announced a wanted))).
+Proof. reflexivity. Qed.
+
+Theorem c17_extra_def : forall a,
+  invalid_extra a =
+    (existsb (fun v => negb (is_text v)) (hosts a)
+     || existsb (fun v => is_nonempty v && forallb is_digit v && negb (dec_value v <? 2 ^ 64)) (cls a)).
+Proof. reflexivity. Qed.
+
+Theorem c17_invalid_classes : forall a wanted skip,
+  invalid a wanted skip = invalid_english a wanted skip || invalid_extra a.
+Proof. exact invalid_split. Qed.
+
+Theorem c17_invalid_classes_iff : forall a wanted skip,
+  invalid a wanted skip = true <-> invalid_english a wanted skip = true \/ invalid_extra a = true.
+Proof. exact invalid_split_iff. Qed.
+
+(** NOTHING EMITTED, AT SCRIPT LEVEL.  [s]: any script state whose object is a flow in SendRequest holding a fresh
+    invalid request.  One step: *)
+Theorem c17_refused_step : forall s f,
+  s_obj s = ObFlow TSendRequest f -> fresh_flow f -> call_invalid (i_call f) = true ->
+  exists e, analysis_error e = true /\
+    (forall cap, step s (OWriteHead cap) = (s, obs_err e)) /\
+    step s OQCanProceed = (s, obs_bool false) /\
+    step s OProceed = (s, [w "stay"]).
+Proof. exact script_refused. Qed.
+
+(** Any history of head writes (any capacities), readiness queries and attempts to advance: the script state after
+    it IS the state before it (the flow, but also the stream / body cursors), and every one of these operations is
+    answered, wherever it occurs in the history, with the same error / "false" / "stay". *)
+Theorem c17_nothing_emitted_flow : forall s f,
+  s_obj s = ObFlow TSendRequest f -> fresh_flow f -> call_invalid (i_call f) = true ->
+  exists e, analysis_error e = true /\
+    forall ops,
+      forallb (fun o => match o with OWriteHead _ | OQCanProceed | OProceed => true | _ => false end) ops = true ->
+      run_ops s ops = s /\
+      forall o, In o ops ->
+        step s o = (s, match o with
+                       | OWriteHead _ => obs_err e
+                       | OQCanProceed => obs_bool false
+                       | _ => [w "stay"]
+                       end).
+Proof. exact script_refused_history. Qed.
+
+(** The single-call objects of the script ([call_without] / [call_with]). *)
+Theorem c17_nothing_emitted_call : forall s h c,
+  s_obj s = ObCall h c -> fresh c -> call_invalid c = true ->
+  exists e, analysis_error e = true /\
+    (h = HWithoutBody -> forall cap, step s (OWriteHead cap) = (s, obs_err e)) /\
+    (h = HWithBody -> forall input cap, step s (OWriteBody input cap) = (s, obs_err e)).
+Proof. exact script_refused_call. Qed.
+
+(** Such states are what [new r; proceed] produces. *)
+Theorem c17_script_new_state : forall r f,
+  flow_new r = Ok f ->
+  s_obj (run_ops s_init [ONew r; OProceed]) = ObFlow TSendRequest f /\ fresh_flow f /\
+  call_invalid (i_call f) =
+    invalid (am_new r) (if need_request_body (rq_method r) then new_chunked else new_none) false.
+Proof. exact script_new_state. Qed.
+
+(** The extra classes are real and are not among the English ones: a Host of one byte 0xFF; a Content-Length of
+    2^64.  2^64 - 1 is accepted. *)
+Example c17_ex_extra_classes :
+  (let f := ex_flow (ex_req GET V11 [(s2b "host", [255])]) in
+   invalid_extra (c_req (i_call f)) = true /\
+   invalid_english (c_req (i_call f)) (c_writer (i_call f)) (c_skip (i_call f)) = false /\
+   first_write f 1000 = Err BadHostHeader) /\
+  (let f := ex_flow (ex_req POST V11 [(s2b "content-length", s2b "18446744073709551616")]) in
+   invalid_extra (c_req (i_call f)) = true /\
+   invalid_english (c_req (i_call f)) (c_writer (i_call f)) (c_skip (i_call f)) = false /\
+   first_write f 1000 = Err BadContentLengthHeader) /\
+  (let f := ex_flow (ex_req POST V11 [(s2b "content-length", s2b "18446744073709551615")]) in
+   call_invalid (i_call f) = false).
+Proof. vm_compute. repeat split. Qed.
+
+(** Script-reached: an HTTP/2 GET.  Seven probing operations later the script state is the very same state, and the
+    observations are the error, "false", "stay". *)
+Example c17_script_nonvacuous :
+  let s := run_ops s_init [OSetStream (s2b "xyz"); ONew (ex_req GET V2 []); OProceed] in
+  let probes := [OWriteHead 0; OQCanProceed; OWriteHead 1000; OProceed; OQCanProceed; OWriteHead 7; OProceed] in
+  match s_obj s with
+  | ObFlow TSendRequest f =>
+      fresh_flow f /\ call_invalid (i_call f) = true /\
+      run_ops s probes = s /\
+      map (fun o => snd (step s o)) probes =
+        [obs_err UnsupportedVersion; obs_bool false; obs_err UnsupportedVersion; [w "stay"]; obs_bool false;
+         obs_err UnsupportedVersion; [w "stay"]]
+  | _ => False
+  end.
+Proof. vm_compute. repeat split; auto. Qed.
 
 Print Assumptions c17_invalid_def.
 Print Assumptions c17_content_length_ok_def.
@@ -257,3 +379,13 @@ Print Assumptions c17_code_verify_version.
 Print Assumptions c17_code_is_http10.
 Print Assumptions c17_code_is_http11.
 Print Assumptions c17_code_need_request_body.
+Print Assumptions c17_english_def.
+Print Assumptions c17_extra_def.
+Print Assumptions c17_invalid_classes.
+Print Assumptions c17_invalid_classes_iff.
+Print Assumptions c17_refused_step.
+Print Assumptions c17_nothing_emitted_flow.
+Print Assumptions c17_nothing_emitted_call.
+Print Assumptions c17_script_new_state.
+Print Assumptions c17_ex_extra_classes.
+Print Assumptions c17_script_nonvacuous.
